@@ -239,6 +239,32 @@ PARENTHESISED = [
     ("def", "def a = 1; a", "(def a = (1)); (a)"),
     ("assignment", "def a = 1; a = 2; a", "def a = 1; (a = 2); a"),
     ("block", "do 1; 2 end", "(do (1); (2) end)"),
+    # an expression that begins with a block and goes on behind its `end`
+    ("block-then-operator", "def x = do 1; 2 end + 1; x",
+     "def x = (do 1; 2 end + 1); x"),
+    ("block-then-operator-in-list", "[do 1 end + 1]", "[(do 1 end + 1)]"),
+    ("block-then-operator-argument", "string(do 1 end + 1)",
+     "string((do 1 end + 1))"),
+    ("block-then-operator-operand", "1 + do 1; 2 end * 3",
+     "1 + (do 1; 2 end * 3)"),
+    ("block-then-and", "if do TRUE end and TRUE then 1 else 2",
+     "if (do TRUE end and TRUE) then 1 else 2"),
+    ("block-then-operator-statement", "def r = 0; r = do 1 end + 1; r",
+     "def r = 0; r = (do 1 end + 1); r"),
+    ("block-then-comparison", "do 1 end == 1", "(do 1 end == 1)"),
+    # a value-less return before every closing token
+    ("return-before-object-end", "def o = <* f(self) (return) *>; o->f()",
+     "def o = <* f(self) return *>; o->f()"),
+    ("return-before-map-end", "<<<1 => fn() (return)>>>[1]()",
+     "<<<1 => fn() return>>>[1]()"),
+    ("return-before-set-end", "[f() for f in <<fn() (return)>>]",
+     "[f() for f in <<fn() return>>]"),
+    ("return-before-for", "[fn() (return) for x in [1]][0]()",
+     "[fn() return for x in [1]][0]()"),
+    ("return-before-if", "[fn() (return) for x in [1] if TRUE][0]()",
+     "[fn() (return) for x in [1] if TRUE][0]()"),
+    ("return-before-then", "def f() if (return) then 1 else 2; f()",
+     "def f() if return then 1 else 2; f()"),
 ]
 
 
